@@ -350,12 +350,19 @@ impl Retrier {
         //            waste a retry cycle with a request that will always fail.
         {
             let mut state = self.wt_client.lock().unwrap();
-            if !state
-                .get_tower_status(&self.tower_id)
-                .unwrap()
-                .is_subscription_error()
-            {
-                state.set_tower_status(self.tower_id, TowerStatus::TemporaryUnreachable);
+            match state.get_tower_status(&self.tower_id) {
+                Some(status) => {
+                    if !status.is_subscription_error() {
+                        state.set_tower_status(self.tower_id, TowerStatus::TemporaryUnreachable);
+                    }
+                }
+                // The tower may have been abandoned since the retrier was flagged to be started. There is nothing to retry:
+                // a stopped retrier with no pending appointments is dropped by the manager.
+                None => {
+                    log::info!("Skipping retry. Tower {} has been abandoned", self.tower_id);
+                    self.pending_appointments.lock().unwrap().clear();
+                    return;
+                }
             }
         }
         self.set_status(RetrierStatus::Running);
